@@ -73,6 +73,8 @@ func main() {
 			part13(*n)
 		case "15":
 			part15(*n)
+		case "15e":
+			part15e()
 		case "":
 		default:
 			hx.Fatal("unknown part %q", p)
